@@ -315,3 +315,40 @@ def rule_cache_clients(ctx):
                 ctx.violated("K5", key, f.where(opens[0][5]), "a cache opened here is not given both page-in and page-out callbacks (mcache_filter): pages could not be written back")
     ctx.floor("K4", 5, n, "(mcache_close and mcache_open call sites)")
     return n
+
+
+def rule_fill_covers_chunk(ctx):
+    """FILLCOVER (C04): a chunk that has never been written is materialised in its cache page by HDmemfill(page, fill value, item
+    size, nitems).  A page holds chunk_size elements of nt_size bytes; the item count must therefore be computed from both
+    (`chunk_size * nt_size / fill_val_len`).  A count without one of the factors fills only part of the page; the rest keeps
+    the bytes of the chunk that occupied the page before (or heap garbage) and is written to the file with the next flush."""
+    from .facts import kind, strip, walk, render, calls_in
+    prog = ctx.prog
+    n = 0
+    for f in prog.lib_funcs():
+        if not f.rel.endswith("hchunks.c"):
+            continue
+        fills = [c for _b, _i, _s, c in f.calls() if c[1] == "HDmemfill" and len(c[3]) >= 4]
+        if not fills:
+            continue
+        for k, c in enumerate(fills):
+            cntv = strip(c[3][3])
+            while kind(cntv) == "cast":
+                cntv = strip(cntv[2])
+            if kind(cntv) != "var":
+                continue
+            defs = [x for _b, _i, _s, x in f.nodes(True) if x[0] == "asg" and x[1] == "=" and kind(strip(x[2])) == "var" and strip(x[2])[1] == cntv[1] and x[4] <= c[5]]
+            if not defs:
+                continue
+            d = max(defs, key=lambda x: x[4])
+            n += 1
+            key = "FILLCOVER:%s#%d" % (f.name, k + 1)
+            flds = {y[2] for y in walk(d[3], True) if y[0] == "mem"}
+            missing = [w for w in ("chunk_size", "nt_size") if w not in flds]
+            if missing:
+                ctx.violated("FILLCOVER", key, f.where(d[4]), "the item count of the fill, `%s`, leaves out `%s`: only part of the cache page is filled with the fill value, the rest is "
+                             "whatever the page held before" % (render(d)[:70], "`, `".join(missing)))
+            else:
+                ctx.holds("FILLCOVER", key, f.where(d[4]), "`%s` covers chunk_size * nt_size bytes" % render(d)[:60], nontrivial=True)
+    ctx.floor("FILLCOVER", 2, n, "(fills of chunk cache pages)")
+    return n
